@@ -526,6 +526,21 @@ def _s_dict_has(eng, st, d, k):
   return eng.contains(st, d, k, None)
 
 
+@specfn("bor")
+def _s_bor(eng, st, a, b):
+  """a | b (same term as the engine produces for the operator)."""
+  a, b = eng.need_int(st, a), eng.need_int(st, b)
+  if isinstance(a, int) and isinstance(b, int):
+    return a | b
+  return bitop(eng, st, ast.BitOr(), a, b, None)
+
+
+@specfn("used_urandom")
+def _s_used_urandom(eng, st):
+  """True iff os.urandom was called on the current path (ghost flag maintained by the os.urandom theory)."""
+  return bool(st.__dict__.get("used_urandom", False))
+
+
 @specfn("hex_of")
 def _s_hex_of(eng, st, x):
   """format(x, 'x') (same term as the engine produces for the call)."""
@@ -609,7 +624,9 @@ def t_invert(eng, st, x, m, node):
   g = t_gcd(eng, st, x, m)
   eng.implicit(st, "ZeroDivisionError", z3.And(m != 0, g == 1), node, "invert of a non-unit")
   r, k = INV(x, m), INV_K(x, m)
-  st.assume(z3.Implies(m > 0, z3.And(r >= 0, r < m)), x * r == 1 + m * k, z3.Implies(m == 1, r == 0))
+  # the defining equation holds only when an inverse exists (in code mode `implicit` above assumes exactly that)
+  st.assume(z3.Implies(m > 0, z3.And(r >= 0, r < m)), z3.Implies(z3.And(m != 0, g == 1), x * r == 1 + m * k),
+            z3.Implies(m == 1, r == 0))
   return r
 
 
@@ -1292,6 +1309,8 @@ def _const_rep(t, v):
   t = parse_type(t)
   if t in ("int", "bool", "real"):
     return z3.K(I, to_z3(v))
+  if t == "str":
+    return z3.K(I, v.term)
   if t == "none":
     return None
   if t[0] == "opt":
@@ -1326,6 +1345,24 @@ def slice_(eng, st, base, lo, hi, step, node):
   raise_unsupported("slice")
 
 
+def retype_list(eng, st, o, decl):
+  """Gives a freshly created list ([None] * n or []) its declared element type."""
+  t = parse_type(decl)
+  if not (isinstance(t, tuple) and t[0] == "list"):
+    return
+  et = t[1]
+  if not o.symbolic:
+    if all(x is None for x in o.items) and len(o.items) <= 1:
+      if len(o.items) == 0:
+        o.items, o.length, o.elem_t, o.rep = None, 0, et, V.fresh_rep(et, "typed")
+      return
+    return
+  # symbolic list of Nones: constant-None representation of the declared optional type
+  if isinstance(o.rep, tuple) and o.rep[0] == "opt" and isinstance(et, tuple) and et[0] == "opt":
+    o.elem_t = et
+    o.rep = _const_rep(et, Opt(True, V.default_of(et[1])))
+
+
 def slice_assign(eng, st, base, sl, v, node):
   """ba[lo:hi] = <bytes of length hi-lo>: contents havocked to arbitrary bytes, length unchanged.  The equal-length
   side condition is an obligation of kind model-pre (if it fails the model does not apply: undecided, not a violation)."""
@@ -1337,7 +1374,7 @@ def slice_assign(eng, st, base, sl, v, node):
   vl = length_of(eng, st, v, node)
   n = len(o.items) if not o.symbolic else o.length
   ok = z3.And(to_z3(lo) >= 0, to_z3(lo) <= to_z3(hi), to_z3(hi) <= to_z3(n), to_z3(hi) - to_z3(lo) == to_z3(vl))
-  eng.emit(st, "model-pre", f"{eng.cur.qual}/model-pre@L{node.lineno}:slice assignment keeps the length", ok,
+  eng.emit(st, "model-pre", f"{eng.cur.qual}/model-pre@{eng.loc(node)}:slice assignment keeps the length", ok,
            clause="0 <= lo <= hi <= len and hi - lo == len(value)", line=node.lineno)
   st.assume(ok)
   to_symbolic_list(eng, st, o, "int")
@@ -2199,6 +2236,7 @@ def call_lib(eng, st, name, args, kwargs, node):
     st.assume(r >= 0, r < t_pow2(eng, st, k))
     return r
   if name == "os.urandom":
+    st.__dict__["used_urandom"] = True
     n = ni(args[0])
     b = V.fresh("bytes", "urandom")
     st.assume(to_z3(b.length) == to_z3(n), b.val >= 0, b.val < t_pow2(eng, st, 8 * to_z3(n)) if not isinstance(
